@@ -25,7 +25,7 @@ RULE = "run = seeded prefix of 1..40 library calls with injected faults, each pa
 REAL = ["cssutils/* (parse, prodparser, tokenize2, errorhandler, serialize, profiles, script, css/*, stylesheets/*)", "encutils", "codecs machinery"]
 STUBS = ["SimNet fetcher / fake urllib.request.urlopen", "scratch files in a per-run temp dir", "SimLog log sink"]
 ASSUMPTIONS = ["single-threaded use (README: cssutils is thread unsafe)", "log message texts are not compared, only levels and counts"]
-PROBES = ["savedTokens_nonempty_at_op_end", "pushback_nonempty_at_op_end", "exception_through_nested_import", "parser_built_under_other_mode", "parse_raised", "battery_after_fault"]
+PROBES = ["savedTokens_nonempty_at_op_end", "pushback_nonempty_at_op_end", "exception_through_nested_import", "parser_built_under_other_mode", "parse_raised", "battery_after_fault", "live_fetcher_reused_after_documents_changed", "member_of_parsed_container_edited"]
 
 UNDECODABLE = ["fffe61", "ff", "c328", "61ff62", "efbbbfff", "40636861727365742022617363696922 3bff".replace(" ", "")]
 
@@ -54,7 +54,7 @@ def config(rs, run, tier):
     }
 
 
-OPKINDS = ["parse_string", "parse_bytes", "parse_style", "parse_file", "parse_url", "parse_import", "new_parser", "standalone", "dom_edit", "prefs", "set_serializer", "combine", "profile_pair", "flip_mode", "battery", "reuse"]
+OPKINDS = ["parse_string", "parse_bytes", "parse_style", "parse_file", "parse_url", "parse_import", "new_parser", "standalone", "dom_edit", "prefs", "set_serializer", "combine", "profile_pair", "flip_mode", "battery", "reuse", "parse_live", "parse_live"]
 
 
 class World:
@@ -183,16 +183,43 @@ class World:
         proj = P.p_sheet(v) if hasattr(v, "cssRules") else P.p_style(v)
         return ("ok", proj, k2, b if k2 == "ok" else lib.ename(b))
 
+    def live_fetch(self, url):
+        """one stable callable given to long-lived parsers; what it answers changes between uses"""
+        return self.live_net.fetch(url)
+
     # ------------------------------------------------------------------ operations
     def step(self, op):
         cu = self.cu
         k = op["op"]
+        if k == "parse_live":
+            # a parser built once with a fetcher, used again after the fetched documents changed
+            self.live_net = simnet.SimNet(op["net"], self.stats)
+            if not self.parsers:
+                p0 = cu.CSSParser(raiseExceptions=False, parseComments=True, validate=True)
+                p0._built_mode, p0._opts, p0._uses = cu.log.raiseExceptions, (False, True, True), 1
+                self.parsers.append(p0)
+            parser = self.parsers[int(op["via"][1:]) % len(self.parsers)]
+            if not getattr(parser, "_live", False):
+                parser.setFetcher(self.live_fetch)
+                parser._live = True
+            else:
+                self.stats["probe:live_fetcher_reused_after_documents_changed"] += 1
+            kk, v = self.bracket(k, lambda: parser.parseString(op["text"], href="http://h/root.css"))
+            fresh = cu.CSSParser(raiseExceptions=parser._opts[0], parseComments=parser._opts[1], validate=parser._opts[2], fetcher=self.live_fetch)
+            k2, v2 = lib.call(lambda: fresh.parseString(op["text"], href="http://h/root.css"))
+            self.stats["oracle"] += 1
+            a, b = self.result_of(kk, v), self.result_of(k2, v2)
+            if a != b:
+                raise Viol("parser_reuse", "reuse:live-fetcher", f"use #{parser._uses} of a parser gave {a!r}, a fresh parser with the same fetcher {b!r} on {op['text']!r} with documents {op['net']!r}")
+            parser._uses += 1
+            return "ok" if kk == "ok" else lib.ename(v)
         if k in ("parse_string", "parse_bytes"):
             data = op["text"] if k == "parse_string" else bytes.fromhex(op["hex"])
             parser, reused = self.parser_for(op)
             net = simnet.SimNet(op.get("net", {}), self.stats)
             if op.get("net") is not None:
                 parser.setFetcher(net.fetch)
+                parser._live = False
             if reused and parser._built_mode != cu.log.raiseExceptions:
                 self.stats["probe:parser_built_under_other_mode"] += 1
             kk, v = self.bracket(k, lambda: parser.parseString(data, encoding=op.get("encoding"), href=op.get("href")))
@@ -233,6 +260,7 @@ class World:
                 net.install_urlopen()
             else:
                 parser.setFetcher(net.fetch)
+            parser._live = False
             try:
                 kk, v = self.bracket(k, lambda: parser.parseUrl(op["url"], encoding=op.get("encoding")))
             finally:
@@ -280,7 +308,24 @@ class World:
                 "CSSMediaRule": lambda t: cu.css.CSSMediaRule(mediaText=t),
                 "Property": lambda t: cu.css.Property("color", t),
             }[op["cls"]]
-            kk, v = lib.call(cls, op["text"])
+            if op.get("of_list"):
+                # an object taken out of a parsed container, then given a text of its own
+                def f():
+                    if op["cls"] == "MediaQuery":
+                        obj, attr = cu.stylesheets.MediaList("print, screen and (color)")[op["of_list"] % 2], "mediaText"
+                    elif op["cls"] == "Selector":
+                        obj, attr = cu.css.SelectorList("a, b > c")[op["of_list"] % 2], "selectorText"
+                    elif op["cls"] == "PropertyValue":
+                        obj, attr = cu.parseStyle("top: 1px; left: 2px").getProperties()[op["of_list"] % 2].propertyValue, "cssText"
+                    else:
+                        obj, attr = cu.parseStyle("top: 1px; left: 2px").getProperties()[op["of_list"] % 2], "cssText"
+                    setattr(obj, attr, op["text"] if op["cls"] != "Property" else "color: " + op["text"])
+                    return obj
+
+                kk, v = lib.call(f)
+                self.stats["probe:member_of_parsed_container_edited"] += 1
+            else:
+                kk, v = lib.call(cls, op["text"])
             self.stats[f"op:standalone:{op['cls']}:{'ok' if kk == 'ok' else lib.ename(v)}"] += 1
             self._whitebox()
             return "ok" if kk == "ok" else lib.ename(v)
@@ -478,7 +523,12 @@ def gen_op(r, w, i):
             "Property": ["red", "red; blue", "1px }", "f("],
         }[cls]
         base.update(cls=cls, text=r.choice(texts))
+        if cls in ("MediaQuery", "Selector", "PropertyValue", "Property") and r.random() < 0.4:
+            base["of_list"] = r.choice([1, 2])
         return base
+    if k == "parse_live":
+        docs = {"http://h/a.css": {"text": r.choice(["z { left: 1px }", "z { left: 2px }", "y { top: 0 } @media print { z { left: 3px } }", '@import "b.css"; z { left: 4px }', "", "z {"]), "enc": None, "http": None, "fault": r.choice([None, None, None, "NOT_FOUND"])}, "http://h/b.css": {"text": r.choice(["w { top: 1px }", "w { top: 2px }"]), "enc": None, "http": None, "fault": None}}
+        return {"op": k, "via": r.choice(["p0", "p1"]), "net": docs, "text": r.choice(['@import "a.css";', '@import "a.css"; @import "b.css";', '@import "a.css" print; a { top: 0 }'])}
     if k == "dom_edit":
         e = r.choice(["insertRule", "cssText", "selectorText", "styleText", "deleteRule"])
         base.update(kind=e, index=r.randrange(0, 6))
